@@ -20,7 +20,7 @@ sys.path.insert(0, HERE)
 import z3  # noqa: E402
 from vc import build, ir, symex, smt, replay  # noqa: E402
 
-CONTRACT_MODULES = ['calendar', 'period', 'clock', 'registrar', 'timezone', 'zoned', 'ruleday', 'encoding']
+CONTRACT_MODULES = ['calendar', 'period', 'clock', 'registrar', 'timezone', 'zoned', 'ruleday', 'encoding', 'printing']
 
 
 class Run:
@@ -325,6 +325,7 @@ def main():
     d = '/var/tmp/acetime-verif.%d' % os.getpid()
     os.environ['VERIF_SCRATCH'] = d
     os.makedirs(d, exist_ok=True)
+    os.environ['VERIF_TIER'] = args.tier
     R = Run(args.prop, args.tier, seed)
     code = 3
     try:
